@@ -55,13 +55,19 @@ def shared_snapshot():
     return snap
 
 
+def holds_stdlib_lock(frame):
+    """the `_getlang` lambda dateparser patches into CPython's `_strptime` runs with `_strptime._cache_lock` held: a second call that
+    needs strptime cannot run there, so it is not a preemption point of this exploration (the point after the lock is released is)"""
+    return frame.f_code.co_name == "<lambda>" and frame.f_code.co_filename.endswith(os.path.join("utils", "strptime.py"))
+
+
 def count_lines(A):
     n = [0]
 
     def tracer(frame, event, arg):
         if event == "call":
             return tracer if frame.f_code.co_filename.startswith(LIB) else None
-        if event == "line":
+        if event == "line" and not holds_stdlib_lock(frame):
             n[0] += 1
         return tracer
     sys.settrace(tracer)
@@ -81,7 +87,7 @@ def preempt(A, B, k):
     def tracer(frame, event, arg):
         if event == "call":
             return tracer if frame.f_code.co_filename.startswith(LIB) else None
-        if event == "line" and not state["done"]:
+        if event == "line" and not state["done"] and not holds_stdlib_lock(frame):
             state["n"] += 1
             if state["n"] == k:
                 state["done"] = True
@@ -89,8 +95,9 @@ def preempt(A, B, k):
                 before = shared_snapshot()
                 t = threading.Thread(target=runB)
                 t.start()
-                t.join(2.0)
+                t.join(float(os.environ.get("C20_JOIN_S", "8")))
                 state["thread"] = t
+                state["blocked"] = t.is_alive()      # B waits for something A holds (e.g. the import lock): not a schedule of this kind
                 after = shared_snapshot()
                 state["changed"] = sorted(x.split("[")[0] + "." + x.split("].")[-1] for x in after if before.get(x) != after[x] and x in before)
         return tracer
@@ -104,30 +111,36 @@ def preempt(A, B, k):
         t.join(30)
     elif not state["done"]:
         state["rb"] = do_call(B)
-    return ra, state["rb"], state["where"], state["changed"]
+    return ra, state["rb"], state["where"], state["changed"], state.get("blocked", False)
 
 
 def main():
     job = json.load(sys.stdin)
     A, B = job["A"], job["B"]
+    import dateparser, dateparser.search          # module import is not part of the exploration (import locks serialise it anyway)
+    os.environ.setdefault("C20_JOIN_S", "5" if job.get("warm", True) else "2")
     # warm up (or not): sequential references are taken in this very process
     if job.get("warm", True):
         do_call(A); do_call(B)
         ra0, rb0 = do_call(A), do_call(B)
         n = count_lines(A)
-        ks = range(1, n + 1) if job.get("ks") is None else job["ks"]
+        ks = range(1, n + 1, job.get("stride", 1)) if job.get("ks") is None else job["ks"]
     else:
         ra0 = rb0 = None
         n = None
         ks = job["ks"]
     out = []
+    nblocked = 0
     for k in ks:
-        ra, rb, where, changed = preempt(A, B, k)
+        ra, rb, where, changed, blocked = preempt(A, B, k)
+        if blocked:
+            nblocked += 1
+            continue
         if ra0 is None:
             out.append({"k": k, "ra": ra, "rb": rb, "where": where, "changed": changed})
         elif ra != ra0 or rb != rb0:
             out.append({"k": k, "ra": ra, "rb": rb, "where": where, "changed": changed})
-    print(json.dumps({"lines": n, "ref": [ra0, rb0], "divergent": out, "tried": len(list(ks))}, ensure_ascii=False))
+    print(json.dumps({"lines": n, "ref": [ra0, rb0], "divergent": out, "tried": len(list(ks)), "blocked": nblocked}, ensure_ascii=False))
 
 
 if __name__ == "__main__":
